@@ -54,6 +54,7 @@ impl<R: Read + Seek> ReadBox<&mut R> for DinfBox {
                     "dinf box contains a box with a larger size than it",
                 ));
             }
+            check_child_size(s)?;
 
             match name {
                 BoxType::DrefBox => {
@@ -166,6 +167,7 @@ impl<R: Read + Seek> ReadBox<&mut R> for DrefBox {
                     "dinf box contains a box with a larger size than it",
                 ));
             }
+            check_child_size(s)?;
 
             match name {
                 BoxType::UrlBox => {
